@@ -212,4 +212,7 @@ def cached_node_property(name):''')]),
     dict(name="resetting the index orders keeps the compiled contractors", kind="break", file=CORE,
          old="                self.info[node].pop(k, None)\n\n        # invalidate any compiled contractions\n        self.contraction_cores.clear()",
          new="                self.info[node].pop(k, None)\n", expect=("C02-CORES", "reset_contraction_indices")),
+    dict(name="seed C04_11: annealing puts the parent's old info entry back", kind="break", file=ANNEAL,
+         old="                    tree._remove_node(p)\n                    tree._remove_node(x)\n", new="                    p_info = tree.info[p]\n                    tree._remove_node(p)\n                    tree._remove_node(x)\n                    tree.info[p] = p_info\n",
+         expect=("C02-NODE", "info[...] = ")),
 ]
